@@ -1,173 +1,282 @@
-(* Proofs/CrossProto.v - C02: one abstract response, three protocols, one result. *)
-From ReqV Require Import Lib.Bytes Lib.BytesFacts Model.H1Resp Model.H1Render Model.RespRender
-  Model.StreamBody Model.RespAPI Model.H1Client Model.MuxResp
-  Proofs.H1RespProofs Proofs.RespRenderProofs Proofs.H1RoundTrip Proofs.MuxRespProofs.
-From Coq Require Import Lia ZifyBool ZifyNat ZifyN.
+(* Proofs/CrossProto.v - C01: the caller's fields and cookies are the same on the three protocols *)
+From ReqV Require Import Lib.Bytes Lib.BytesFacts Model.Url Model.HeaderOrder Model.HeaderCollect
+  Model.BodyFraming Model.H1Req.
+From ReqV Require Import Proofs.UrlProofs Proofs.H1ReqProofs Proofs.H1EndToEnd.
+From Coq Require Import Lia.
 
-Lemma values_of_app k a b : values_of k (a ++ b) = values_of k a ++ values_of k b.
-Proof. unfold values_of. now rewrite filter_app, map_app. Qed.
-
-Lemma without_app k a b : without k (a ++ b) = without k a ++ without k b.
-Proof. unfold without. apply filter_app. Qed.
-
-Lemma end_to_end_named k fs :
-  h1_reserved k = true -> end_to_end fs = true -> none_named k fs.
+Lemma h1_exclude_managed k : mem_bytes k h1_exclude = true -> managed_name k = true.
 Proof.
-  intros Hk H. unfold end_to_end in H. rewrite forallb_forall in H.
-  apply Forall_forall. intros f Hf. specialize (H f Hf). apply negb_true_iff in H.
-  unfold named. destruct (bytes_eqb (canon_name (fst f)) k) eqn:E; [|reflexivity].
-  apply bytes_eqb_eq in E. rewrite E in H. congruence.
+  intros H. unfold mem_bytes, h1_exclude in H. cbn [existsb] in H.
+  repeat (apply orb_true_iff in H as [H|H]; [apply bytes_eqb_eq in H; subst; reflexivity|]).
+  discriminate.
 Qed.
 
-Lemma none_named_values k fs : none_named k fs -> values_of k fs = [].
-Proof. induction 1 as [|f fs Hf _ IH]; [reflexivity|]. now rewrite values_of_cons, Hf. Qed.
+Lemma filter_managed_lines k (vs : list bytes) : managed_name k = true ->
+  filter unmanaged_line (map (fun v => (k, v)) vs) = [].
+Proof.
+  intros H. induction vs as [|v vs IH]; [reflexivity|]. cbn [map filter]. unfold unmanaged_line at 1.
+  cbn [fst]. rewrite H. exact IH.
+Qed.
 
-Lemma none_named_without k fs : none_named k fs -> without k fs = fs.
-Proof. intros H. apply without_absent. now apply none_named_values. Qed.
+Lemma filter_unmanaged_lines k (vs : list bytes) : managed_name k = false ->
+  filter unmanaged_line (map (fun v => (k, v)) vs) = map (fun v => (k, v)) vs.
+Proof.
+  intros H. induction vs as [|v vs IH]; [reflexivity|]. cbn [map filter]. unfold unmanaged_line at 1.
+  cbn [fst]. rewrite H. cbn [negb]. f_equal. exact IH.
+Qed.
 
-Definition te_chunked : wfield :=
-  {| wf_name := K_TE; wf_pre := [SP]; wf_value := bs "chunked"; wf_post := [] |}.
+Lemma flatten_one k vs : flatten [(k, vs)] = map (fun v => (k, v)) vs.
+Proof. unfold flatten. cbn [flat_map fst snd]. apply app_nil_r. Qed.
+
+Lemma flatten_cons x (l : list kv) : flatten (x :: l) = map (fun v => (fst x, v)) (snd x) ++ flatten l.
+Proof. reflexivity. Qed.
+
+Lemma valid_value_sanitize v : valid_field_value v = true -> sanitize v = trim is_sp_tab v.
+Proof.
+  intros H. unfold sanitize. f_equal. unfold valid_field_value in H. rewrite forallb_forall in H.
+  induction v as [|c v IH]; [reflexivity|]. cbn [map]. f_equal.
+  - specialize (H c (or_introl eq_refl)). unfold nl_to_space.
+    destruct (beqb c x0a || beqb c x0d) eqn:E; [|reflexivity].
+    exfalso. apply orb_true_iff in E as [E|E]; apply beqb_eq in E; subst; discriminate.
+  - apply IH. intros x Hx. apply H. right. exact Hx.
+Qed.
+
+Lemma unmanaged_h2_entry x : managed_name (fst x) = false -> h2_entry x = [x].
+Proof.
+  unfold managed_name. intros H. apply orb_false_iff in H as [H Hc]. apply orb_false_iff in H as [H Hu].
+  apply orb_false_iff in H as [He _]. unfold h2_entry, is_excluded, is_ua, equal_fold.
+  rewrite He. change (to_lower (bs "user-agent")) with (bs "user-agent"). rewrite Hu.
+  change (to_lower (bs "cookie")) with (bs "cookie"). rewrite Hc. destruct x; reflexivity.
+Qed.
+
+Lemma managed_h2_entry x : managed_name (fst x) = true ->
+  filter unmanaged_line (flatten (h2_entry x)) = [].
+Proof.
+  intros H. unfold h2_entry. destruct (is_excluded (fst x)); [reflexivity|].
+  destruct (is_ua (fst x)).
+  - unfold ua_first. destruct (snd x) as [|v vs]; [reflexivity|]. destruct (is_nil v); [reflexivity|].
+    rewrite flatten_one. apply filter_managed_lines. exact H.
+  - destruct (equal_fold (fst x) (bs "cookie")).
+    + rewrite flatten_one. apply filter_managed_lines. reflexivity.
+    + rewrite flatten_one. apply filter_managed_lines. exact H.
+Qed.
+
+Lemma managed_h3_entry x : managed_name (fst x) = true ->
+  filter unmanaged_line (flatten (h3_entry x)) = [].
+Proof.
+  intros H. unfold h3_entry. destruct (is_excluded (fst x)); [reflexivity|].
+  destruct (is_ua (fst x)).
+  - unfold ua_first. destruct (snd x) as [|v vs]; [reflexivity|]. destruct (is_nil v); [reflexivity|].
+    rewrite flatten_one. apply filter_managed_lines. exact H.
+  - rewrite flatten_single_values, flatten_one. apply filter_managed_lines. exact H.
+Qed.
+
+Lemma unmanaged_h3_entry x : managed_name (fst x) = false -> flatten (h3_entry x) = flatten [x].
+Proof.
+  unfold managed_name. intros H. apply orb_false_iff in H as [H Hc]. apply orb_false_iff in H as [H Hu].
+  apply orb_false_iff in H as [He _]. unfold h3_entry, is_excluded, is_ua, equal_fold.
+  rewrite He. change (to_lower (bs "user-agent")) with (bs "user-agent"). rewrite Hu.
+  rewrite flatten_single_values. destruct x; reflexivity.
+Qed.
+
+Lemma h1_user_cons x h : h1_user (x :: h) =
+  (if negb (mem_bytes (fst x) h1_exclude) && valid_field_name (fst x)
+   then [(fst x, map sanitize (snd x))] else []) ++ h1_user h.
+Proof.
+  unfold h1_user. cbn [filter]. destruct (negb (mem_bytes (fst x) h1_exclude) && valid_field_name (fst x)); reflexivity.
+Qed.
 
 Section Cross.
-  Variable a : aresp.
-  Variable fs : list wfield.            (* the end-to-end fields as written on an HTTP/1.1 wire *)
-  Variable cs : list (bytes * bytes).   (* HTTP/1.1 chunks *)
-  Variable l0 : bytes.                  (* last-chunk size line *)
-  Variable fr : list h2frame.           (* HTTP/2 DATA frames (any padding), all but the last *)
-  Variable last : h2frame.
-  Variable parts : list bytes.          (* HTTP/3 DATA frames *)
-  Variable m : mode.
-  Variable sizes : list nat.
+  Variable entry : kv -> list kv.
+  Hypothesis entry_managed : forall x, managed_name (fst x) = true ->
+    filter unmanaged_line (flatten (entry x)) = [].
+  Hypothesis entry_unmanaged : forall x, managed_name (fst x) = false -> flatten (entry x) = flatten [x].
 
-  Hypothesis Hcode : (100 <= a_code a <= 999)%Z.
-  Hypothesis Hallow : body_allowed_for_status (a_code a) = true.
-  Hypothesis Hreason : reason_ok (a_reason a) = true.
-  Hypothesis Hfs : fields_ok fs.
-  Hypothesis Hfields : map field_of fs = a_fields a.
-  Hypothesis He2e : end_to_end (a_fields a) = true.
-  Hypothesis Hchunks : chunks_ok br_size 0 cs.
-  Hypothesis Hl0 : size_line_ok br_size l0 0.
-  Hypothesis Hb1 : concat (map snd cs) = a_body a.
-  Hypothesis Hopen : open_frames fr.
-  Hypothesis Hlast : fd_end last = true.
-  Hypothesis Hb2 : payload (fr ++ [last]) = a_body a.
-  Hypothesis Hb3 : concat parts = a_body a.
-
-  Let expected : api_obs := run_mode m (a_code a) sizes {| rd_rem := a_body a; rd_end := BEof |}.
-
-  Let h1_wire : bytes :=
-    render_head (a_code a) (a_reason a) (fs ++ [te_chunked]) ++
-    H1Render.render_chunks cs ++ l0 ++ H1Render.CRLF ++ render_wfields [] ++ H1Render.CRLF ++ [].
-
-  Lemma tokens : token_names (a_fields a).
+  Lemma cross_h1_h23 : forall h, valid_headers h = true ->
+    caller_fields_h1 h = caller_fields_h23 entry h.
   Proof.
-    rewrite <- Hfields. apply Forall_forall. intros f Hf. apply in_map_iff in Hf as (w & <- & Hw).
-    unfold fields_ok in Hfs. rewrite Forall_forall in Hfs.
-    destruct (wfield_ok_parts w (Hfs w Hw)) as (_ & Ht & _). exact Ht.
-  Qed.
-
-  Lemma not_1xx : is_1xx_nonterminal (a_code a) = false.
-  Proof.
-    unfold is_1xx_nonterminal. unfold body_allowed_for_status in Hallow.
-    apply negb_true_iff in Hallow. apply orb_false_iff in Hallow as [H _].
-    apply orb_false_iff in H as [H _]. now rewrite H.
-  Qed.
-
-  Theorem h1_view :
-    exists r b,
-      h1_exchange (bs "GET") m sizes h1_wire = Some {| d_resp := r; d_body := b; d_api := expected |} /\
-      r_code r = a_code a /\ r_header r = collect (a_fields a) /\ b_trailer b = [] /\
-      b_data b = a_body a.
-  Proof.
-    set (F := map field_of (fs ++ [te_chunked])).
-    assert (EF : F = a_fields a ++ [(K_TE, bs "chunked")]).
-    { unfold F. rewrite map_app, Hfields. reflexivity. }
-    assert (Nte := end_to_end_named K_TE _ eq_refl He2e).
-    assert (Ncl := end_to_end_named K_CL _ eq_refl He2e).
-    assert (Ntr := end_to_end_named K_TRAILER _ eq_refl He2e).
-    assert (Nco := end_to_end_named K_CONNECTION _ eq_refl He2e).
-    assert (Npr := end_to_end_named K_PRAGMA _ eq_refl He2e).
-    assert (Vte : values_of K_TE F = [bs "chunked"]).
-    { rewrite EF, values_of_app, (none_named_values _ _ Nte). reflexivity. }
-    assert (Vcl : no_field K_CL F).
-    { unfold no_field. rewrite EF, values_of_app, (none_named_values _ _ Ncl). reflexivity. }
-    assert (Vtr : values_of K_TRAILER F = []).
-    { rewrite EF, values_of_app, (none_named_values _ _ Ntr). reflexivity. }
-    assert (Vco : values_of K_CONNECTION F = []).
-    { rewrite EF, values_of_app, (none_named_values _ _ Nco). reflexivity. }
-    assert (Vpr : values_of K_PRAGMA F = []).
-    { rewrite EF, values_of_app, (none_named_values _ _ Npr). reflexivity. }
-    assert (Hok : fields_ok (fs ++ [te_chunked])).
-    { apply Forall_app. split; [exact Hfs|]. constructor; [reflexivity|constructor]. }
-    assert (Hbad : existsb bad_trailer_key (declared_keys F) = false).
-    { unfold declared_keys. rewrite Vtr. reflexivity. }
-    pose proof (h1_chunked_round_trip (bs "GET") br_size (a_code a) (a_reason a) (fs ++ [te_chunked])
-                  Hcode Hreason Hok (pragma_neutral_no_pragma _ Vpr) [] (bs "chunked") cs l0 []
-                  eq_refl Hallow Vte eq_refl Vcl Hbad Hchunks Hl0 (Forall_nil _) (or_introl eq_refl)) as P.
-    fold F in P.
-    eexists. eexists. split.
-    - unfold h1_wire. pose proof (h1_delivery (bs "GET") m sizes [] _ _ _ (Forall_nil _) ltac:(cbn; lia) P) as D.
-      cbn [render_interims flat_map app] in D. rewrite D by (cbn [r_code]; apply not_1xx).
-      cbn [r_code body_reader b_data b_end berr_clean]. unfold expected. rewrite Hb1. reflexivity.
-    - cbn [r_code r_header b_trailer b_data].
-      split; [reflexivity|]. split; [|split; [|first [reflexivity|exact Hb1]]].
-      + unfold after_conn, wants_close, conn_values. rewrite Vco. cbn [header_values_contain_token existsb].
-        rewrite EF, !without_app, (none_named_without _ _ Nte), (none_named_without _ _ Ntr).
-        cbn. now rewrite app_nil_r.
-      + unfold declared_trailer, declared_keys. rewrite Vtr. reflexivity.
-  Qed.
-
-  Theorem h2_view :
-    h2_exchange false
-      [{| hh_status := code_text (a_code a); hh_fields := lower_fields (a_fields a); hh_end := false |}]
-      (fr ++ [last]) None m sizes =
-    Some {| m_code := a_code a; m_header := collect (a_fields a); m_cl := -1; m_trailer := [];
-            m_api := expected |}.
-  Proof.
-    pose proof (code_ok_all _ Hcode) as Ok. unfold code_ok in Ok.
-    apply andb_true_iff in Ok as [Ok _]. apply andb_true_iff in Ok as [Ok _].
-    apply andb_true_iff in Ok as [_ Hat].
-    destruct (atoi (code_text (a_code a))) as [n|] eqn:Ea; [|discriminate]. apply Z.eqb_eq in Hat. subst n.
-    unfold h2_exchange. cbn [h2_final hh_status hh_end hh_fields]. rewrite Ea.
-    pose proof not_1xx as N1. unfold is_1xx_nonterminal in N1.
-    assert (Hn : ((100 <=? a_code a)%Z && (a_code a <=? 199)%Z) = false).
-    { unfold body_allowed_for_status in Hallow. apply negb_true_iff in Hallow.
-      apply orb_false_iff in Hallow as [H _]. apply orb_false_iff in H as [H _]. exact H. }
-    rewrite Hn. cbn [hh_status hh_end hh_fields].
-    rewrite h2_header_collect; [|apply tokens|apply (end_to_end_named K_TRAILER _ eq_refl He2e)].
-    unfold h2_content_length. rewrite hget_collect.
-    rewrite (none_named_values _ _ (end_to_end_named K_CL _ eq_refl He2e)).
-    cbn [andb negb Z.ltb Z.compare]. cbn [Z.to_N].
-    rewrite h2_body_concat; [|assumption|assumption|now left].
-    cbn [h2err_clean]. unfold expected. rewrite Hb2. reflexivity.
-  Qed.
-
-  Theorem h3_view :
-    h3_exchange false
-      [{| h3_status := code_text (a_code a); h3_flds := lower_fields (a_fields a) |}]
-      parts None m sizes =
-    Some {| m_code := a_code a; m_header := collect (a_fields a); m_cl := -1; m_trailer := [];
-            m_api := expected |}.
-  Proof.
-    pose proof (code_ok_all _ Hcode) as Ok. unfold code_ok in Ok.
-    apply andb_true_iff in Ok as [Ok _]. apply andb_true_iff in Ok as [Ok _].
-    apply andb_true_iff in Ok as [_ Hat].
-    destruct (atoi (code_text (a_code a))) as [n|] eqn:Ea; [|discriminate]. apply Z.eqb_eq in Hat. subst n.
-    unfold h3_exchange. cbn [h3_final h3_status h3_flds]. rewrite Ea.
-    assert (Hn : ((100 <=? a_code a)%Z && (a_code a <=? 199)%Z) = false).
-    { unfold body_allowed_for_status in Hallow. apply negb_true_iff in Hallow.
-      apply orb_false_iff in Hallow as [H _]. apply orb_false_iff in H as [H _]. exact H. }
-    rewrite Hn. cbn [andb h3_status h3_flds].
-    rewrite h3_header_collect; [|apply tokens|apply (end_to_end_named K_CL _ eq_refl He2e)
-                                |apply (end_to_end_named K_TRAILER _ eq_refl He2e)].
-    cbn [Z.ltb Z.compare andb orb Z.eqb].
-    assert (H204 : (a_code a =? 204)%Z = false).
-    { unfold body_allowed_for_status in Hallow. apply negb_true_iff in Hallow.
-      apply orb_false_iff in Hallow as [H _]. apply orb_false_iff in H as [_ H]. exact H. }
-    assert (H12 : ((100 <=? a_code a)%Z && (a_code a <? 200)%Z) = false).
-    { destruct (Z.leb_spec 100 (a_code a)); destruct (Z.ltb_spec (a_code a) 200); try reflexivity.
-      destruct (Z.leb_spec (a_code a) 199); [discriminate Hn|lia]. }
-    rewrite H12, H204. cbn [orb andb].
-    rewrite h3_body_concat by (now left). cbn [h3err_clean]. unfold expected. rewrite Hb3. reflexivity.
+    unfold caller_fields_h1, caller_fields_h23.
+    induction h as [|[k vs] h IH]; intros Hv; [reflexivity|]. set (x := (k, vs)) in *.
+    unfold valid_headers in Hv. cbn [forallb] in Hv. apply andb_true_iff in Hv as [Hx Hv].
+    apply andb_true_iff in Hx as [Hname Hvals]. specialize (IH Hv).
+    rewrite h1_user_cons. cbn [flat_map]. rewrite !flatten_app, !filter_app, !map_app. f_equal; [|exact IH].
+    destruct (managed_name (fst x)) eqn:Em.
+    - rewrite entry_managed by exact Em.
+      destruct (negb (mem_bytes (fst x) h1_exclude) && valid_field_name (fst x)); [|reflexivity].
+      rewrite flatten_one, filter_managed_lines by exact Em. reflexivity.
+    - rewrite entry_unmanaged by exact Em.
+      assert (Hex : mem_bytes (fst x) h1_exclude = false).
+      { destruct (mem_bytes (fst x) h1_exclude) eqn:E; [|reflexivity].
+        apply h1_exclude_managed in E. congruence. }
+      rewrite Hex, Hname. cbn [negb andb]. subst x. cbn [fst snd] in *. rewrite !flatten_one.
+      rewrite !filter_unmanaged_lines by exact Em. rewrite !map_map. cbn [fst snd].
+      rewrite forallb_forall in Hvals.
+      induction vs as [|v vs IHv]; [reflexivity|]. cbn [map]. f_equal.
+      + rewrite valid_value_sanitize by (apply Hvals; left; reflexivity). reflexivity.
+      + apply IHv. intros y Hy. apply Hvals. right. exact Hy.
   Qed.
 End Cross.
+
+(* the caller's own fields (every name no writer treats specially) reach the wire identically on
+   HTTP/1.1, HTTP/2 and HTTP/3: same names up to case, same values without surrounding blanks,
+   same multiplicity, same order *)
+Theorem cross_protocol_h1_h2 : forall h, valid_headers h = true ->
+  caller_fields_h1 h = caller_fields_h23 h2_entry h.
+Proof.
+  apply cross_h1_h23; [exact managed_h2_entry|].
+  intros x H. rewrite unmanaged_h2_entry by exact H. reflexivity.
+Qed.
+
+Theorem cross_protocol_h1_h3 : forall h, valid_headers h = true ->
+  caller_fields_h1 h = caller_fields_h23 h3_entry h.
+Proof. apply cross_h1_h23; [exact managed_h3_entry|exact unmanaged_h3_entry]. Qed.
+
+(* ---------- cookies: HTTP/2 splits the Cookie header into crumbs; re-joined they are the list ---------- *)
+Definition crumb_ok (p : bytes) : Prop :=
+  mem_byte semi p = false /\ match p with c :: _ => c <> space | [] => False end.
+
+Lemma crumbs_go_lit : forall p acc rest, mem_byte semi p = false ->
+  crumbs_go acc false (p ++ rest) = crumbs_go (rev p ++ acc) false rest.
+Proof.
+  induction p as [|c p IH]; intros acc rest H; [reflexivity|].
+  rewrite mem_byte_cons in H. apply orb_false_iff in H as [H1 H2].
+  cbn [app crumbs_go andb]. rewrite beqb_sym, H1. rewrite IH by exact H2.
+  cbn [rev]. rewrite <- app_assoc. reflexivity.
+Qed.
+
+Lemma crumbs_go_start : forall p sk rest, crumb_ok p ->
+  crumbs_go [] sk (p ++ rest) = crumbs_go (rev p) false rest.
+Proof.
+  intros [|c p] sk rest [Hs Hc]; [destruct Hc|].
+  rewrite mem_byte_cons in Hs. apply orb_false_iff in Hs as [H1 H2].
+  cbn [app crumbs_go]. apply beqb_neq in Hc. rewrite Hc, andb_false_r. rewrite beqb_sym, H1.
+  rewrite crumbs_go_lit by exact H2. cbn [rev]. reflexivity.
+Qed.
+
+Lemma crumb_nonempty p : crumb_ok p -> is_nil (rev p) = false.
+Proof. intros [_ H]. destruct p as [|c p]; [destruct H|]. cbn [rev]. destruct (rev p); reflexivity. Qed.
+
+Lemma crumbs_join : forall ps sk, Forall crumb_ok ps ->
+  crumbs_go [] sk (join_with (bs "; ") ps) = ps.
+Proof.
+  induction ps as [|p ps IH]; intros sk H; [destruct sk; reflexivity|].
+  inversion H as [|? ? Hp Hps]; subst. destruct ps as [|q ps].
+  - cbn [join_with]. rewrite <- (app_nil_r p) at 1. rewrite crumbs_go_start by exact Hp.
+    cbn [crumbs_go]. rewrite crumb_nonempty by exact Hp. rewrite rev_involutive. reflexivity.
+  - change (join_with (bs "; ") (p :: q :: ps)) with (p ++ bs "; " ++ join_with (bs "; ") (q :: ps)).
+    rewrite crumbs_go_start by exact Hp.
+    change (bs "; " ++ join_with (bs "; ") (q :: ps)) with (semi :: space :: join_with (bs "; ") (q :: ps)).
+    cbn [crumbs_go andb]. change (beqb semi space) with false. rewrite beqb_refl. cbn iota.
+    rewrite rev_involutive. f_equal. cbn [crumbs_go andb]. rewrite beqb_refl. cbn iota.
+    apply IH. exact Hps.
+Qed.
+
+(* a valid cookie renders as a well-formed crumb: no ';', does not start with a blank *)
+Lemma cookie_pair_crumb c : valid_cookie c = true -> crumb_ok (cookie_pair c).
+Proof.
+  unfold valid_cookie, valid_method. intros H. apply andb_true_iff in H as [Hn Hv].
+  apply andb_true_iff in Hn as [Hne Htok]. unfold cookie_pair, crumb_ok. split.
+  - rewrite mem_byte_app, mem_byte_cons.
+    assert (H1 : mem_byte semi (sanitize_cookie_name (fst c)) = false).
+    { unfold sanitize_cookie_name. apply mem_byte_false_In. intros Hin. apply in_map_iff in Hin as (b & Eb & Hb).
+      rewrite forallb_forall in Htok. specialize (Htok _ Hb). unfold cookie_name_byte in Eb.
+      destruct (beqb b x0a || beqb b x0d); [discriminate|]. subst b. discriminate. }
+    rewrite H1. cbn [orb]. change (beqb semi "="%byte) with false. cbn [orb].
+    unfold sanitize_cookie_value.
+    assert (H2 : mem_byte semi (filter valid_cookie_value_byte (snd c)) = false).
+    { apply mem_byte_false_In. intros Hin. apply filter_In in Hin as [_ Hin]. discriminate. }
+    set (fv' := filter valid_cookie_value_byte (snd c)) in *.
+    destruct (is_nil fv'); [exact H2|].
+    destruct (mem_byte " "%byte fv' || mem_byte ","%byte fv'); [|exact H2].
+    rewrite mem_byte_cons, mem_byte_app, H2. reflexivity.
+  - destruct (fst c) as [|b n] eqn:E; [discriminate|]. cbn [sanitize_cookie_name map app].
+    cbn [forallb] in Htok. apply andb_true_iff in Htok as [Hb _]. unfold cookie_name_byte.
+    destruct (beqb b x0a || beqb b x0d); [discriminate|]. intros ->. discriminate.
+Qed.
+
+(* HTTP/2 sends the cookies Client.roundTrip added as exactly one crumb per cookie, in order; a
+   server that joins the crumbs with "; " (RFC 9113 8.2.3) reads the header HTTP/1.1 and HTTP/3 carry *)
+Theorem cookie_crumbs_are_the_list : forall cks, forallb valid_cookie cks = true ->
+  crumbs (cookie_header [] cks) = map cookie_pair cks /\
+  join_with (bs "; ") (crumbs (cookie_header [] cks)) = cookie_header [] cks.
+Proof.
+  intros cks H. unfold cookie_header, crumbs. cbn [is_nil app].
+  assert (E : crumbs_go [] false (join_with (bs "; ") (map cookie_pair cks)) = map cookie_pair cks).
+  { apply crumbs_join. apply Forall_forall. intros p Hp. apply in_map_iff in Hp as (c & <- & Hc).
+    apply cookie_pair_crumb. rewrite forallb_forall in H. auto. }
+  rewrite E. split; reflexivity.
+Qed.
+
+(* with a caller-written Cookie header in front: its own crumbs, then one crumb per cookie *)
+Lemma crumbs_go_semi : forall s acc sk rest,
+  crumbs_go acc sk (s ++ semi :: rest) = crumbs_go acc sk (s ++ [semi]) ++ crumbs_go [] true rest.
+Proof.
+  induction s as [|c s IH]; intros acc sk rest.
+  - cbn [app crumbs_go]. destruct (sk && beqb semi space) eqn:E.
+    + exfalso. apply andb_true_iff in E as [_ E]. discriminate.
+    + rewrite beqb_refl. reflexivity.
+  - cbn [app crumbs_go]. destruct (sk && beqb c space); [apply IH|].
+    destruct (beqb c semi); [cbn [app]; f_equal; apply IH|apply IH].
+Qed.
+
+Theorem cookie_crumbs_with_caller_header : forall cur cks, cur <> [] -> cks <> [] ->
+  forallb valid_cookie cks = true ->
+  crumbs (cookie_header cur cks) = crumbs (cur ++ [semi]) ++ map cookie_pair cks.
+Proof.
+  intros cur cks Hcur Hcks H. unfold cookie_header, crumbs.
+  destruct cur as [|c0 cur0]; [congruence|]. cbn [is_nil app].
+  destruct cks as [|k cks]; [congruence|]. cbn [map].
+  change (join_with (bs "; ") ((c0 :: cur0) :: cookie_pair k :: map cookie_pair cks))
+    with ((c0 :: cur0) ++ semi :: space :: join_with (bs "; ") (map cookie_pair (k :: cks))).
+  rewrite crumbs_go_semi. f_equal. cbn [crumbs_go andb]. rewrite beqb_refl. cbn iota.
+  apply crumbs_join. apply Forall_forall. intros p Hp.
+  change (cookie_pair k :: map cookie_pair cks) with (map cookie_pair (k :: cks)) in Hp.
+  apply in_map_iff in Hp as (c & <- & Hc).
+  apply cookie_pair_crumb. rewrite forallb_forall in H. auto.
+Qed.
+
+(* the header Request.AddCookie accumulates is [cookie_header] *)
+Lemma hget_hset h k v : hget (hset h k v) (canonical_key k) = Some [v].
+Proof.
+  unfold hset. induction h as [|x h IH]; cbn [filter app hget fst snd].
+  - rewrite bytes_eqb_refl. reflexivity.
+  - destruct (bytes_eqb (fst x) (canonical_key k)) eqn:E; cbn [negb]; [exact IH|].
+    cbn [app hget]. rewrite E. exact IH.
+Qed.
+
+Lemma header_get_hset h v : header_get (hset h (bs "Cookie") v) (bs "Cookie") = v.
+Proof.
+  unfold header_get, hvals. change (canonical_key (bs "Cookie")) with (canonical_key (bs "Cookie")).
+  rewrite (hget_hset h (bs "Cookie") v). reflexivity.
+Qed.
+
+Lemma cookie_pair_nonempty c : is_nil (cookie_pair c) = false.
+Proof. unfold cookie_pair. destruct (sanitize_cookie_name (fst c)); reflexivity. Qed.
+
+Lemma cookie_header_step cur c cks :
+  cookie_header cur (c :: cks) =
+  cookie_header (if is_nil cur then cookie_pair c else cur ++ bs "; " ++ cookie_pair c) cks.
+Proof.
+  unfold cookie_header. destruct cur as [|b cur]; cbn [is_nil app map].
+  - rewrite cookie_pair_nonempty. reflexivity.
+  - destruct (map cookie_pair cks) as [|p ps] eqn:E.
+    + cbn [join_with app]. reflexivity.
+    + change (join_with (bs "; ") ((b :: cur) :: cookie_pair c :: p :: ps))
+        with ((b :: cur) ++ bs "; " ++ cookie_pair c ++ bs "; " ++ join_with (bs "; ") (p :: ps)).
+      change (join_with (bs "; ") ((b :: cur ++ bs "; " ++ cookie_pair c) :: p :: ps))
+        with ((b :: cur ++ bs "; " ++ cookie_pair c) ++ bs "; " ++ join_with (bs "; ") (p :: ps)).
+      cbn [app]. f_equal. rewrite <- !app_assoc. reflexivity.
+Qed.
+
+Theorem add_cookies_header : forall cks h, cks <> [] ->
+  header_get (fold_left add_cookie cks h) (bs "Cookie") = cookie_header (header_get h (bs "Cookie")) cks.
+Proof.
+  induction cks as [|c cks IH]; intros h Hne; [congruence|]. cbn [fold_left].
+  rewrite cookie_header_step. destruct cks as [|c' cks].
+  - cbn [fold_left]. unfold add_cookie. rewrite header_get_hset. unfold cookie_header.
+    cbn [map app]. destruct (is_nil (header_get h (bs "Cookie"))).
+    + rewrite cookie_pair_nonempty. reflexivity.
+    + destruct (header_get h (bs "Cookie") ++ bs "; " ++ cookie_pair c) eqn:E; [|reflexivity].
+      destruct (header_get h (bs "Cookie")); discriminate.
+  - rewrite IH by discriminate. unfold add_cookie at 1. rewrite header_get_hset. reflexivity.
+Qed.
